@@ -154,7 +154,8 @@ Inductive exn :=
 | ExIndex              (* IndexError: s_source[0] of an empty string *)
 | ExInvalidArg         (* SingleInstructionInvalidArgumentException (and its subclass for here-documents) *)
 | ExOutOfFuel          (* model artefact; theorems show it is not the result on well-formed input *)
-| ExOther.             (* never produced by the model: any other Python exception the harness observed *)
+| ExOther.             (* any other outcome the harness observed; the model gives it only for what it does not
+                          cover (a path argument of a program) *)
 
 Inductive res (A : Type) := Ok (a : A) | Raise (e : exn).
 Arguments Ok {A} a.
@@ -463,6 +464,23 @@ Section WithAlnum.
           end
     end.
 
+  (** [SymbolNameOrStringRichStringParser.parse_from_token_parser] itself (the Either is kept: program
+      arguments distinguish a bare symbol reference from a string).  [rich_string_parse] above is this
+      followed by the reduction of [RichStringParser] (Proofs/TokRich.v [rich_string_parse_reduces]). *)
+  Definition rich_symref_or_string (ts : tstream) : res ((text + list fragment) * tstream) :=
+    do _ <- tp_require_has_valid_head_token ts;
+    match ts_head ts with
+    | None => Raise ExInvalidArg
+    | Some head =>
+        if starts_with_here_doc_prefix (t_source head) then
+          do r <- heredoc_parse ts; Ok (inr (fst r), snd r)
+        else if tp_has_valid_head_unquoted_equals [58; 62] ts then
+          do r <- ts_consume ts;
+          do r2 <- ts_consume_line false (snd r);
+          Ok (inr (split (strip_py (fst r2))), snd r2)
+        else parse_symref_or_string ts
+    end.
+
   (** ** generic_parser.ElementsUntilEndOfLineParser2 / parse_list *)
   Inductive element := ESym (name : text) | EStr (frs : list fragment).
 
@@ -484,6 +502,47 @@ Section WithAlnum.
   (** [ElementsUntilEndOfLineParser2.parse] *)
   Definition list_parse (ts : tstream) : res (list element * tstream) :=
     do r <- list_loop (2 * length (ts_src ts) + 2) [] ts;
+    let ts1 := snd r in
+    if tp_is_at_eol ts1 then
+      do r2 <- ts_consume_line false ts1; Ok (fst r, snd r2)
+    else Ok (fst r, ts1).
+
+  (** ** program arguments: parse_arguments._Parser = the same ElementsUntilEndOfLineParser2 with the
+      element parser [_ElementParser]: the options -existing-file / -existing-dir / -existing-path
+      (path arguments: outside this model, a distinct error), else a rich string or bare symbol *)
+  Definition existing_path_options : list text :=
+    [[45;101;120;105;115;116;105;110;103;45;102;105;108;101];
+     [45;101;120;105;115;116;105;110;103;45;100;105;114];
+     [45;101;120;105;115;116;105;110;103;45;112;97;116;104]].
+
+  Definition args_element (ts : tstream) : res ((text + list fragment) * tstream) :=
+    (* require_existing_valid_head_token *)
+    match look_ahead_state ts with
+    | SYNTAX_ERROR => Raise ExInvalidArg
+    | LA_NULL => Raise ExInvalidArg
+    | HAS_TOKEN =>
+        if existsb (fun o => tp_has_valid_head_unquoted_equals o ts) existing_path_options
+        then Raise ExOther      (* a path argument: not modelled *)
+        else rich_symref_or_string ts
+    end.
+
+  Fixpoint args_loop (fuel : nat) (acc : list element) (ts : tstream) : res (list element * tstream) :=
+    match fuel with
+    | O => Raise ExOutOfFuel
+    | S fuel' =>
+        if negb (tp_is_at_eol ts) then
+          if text_eqb (strip_py (ts_remaining_part_of_current_line ts)) [BSL] then
+            do r <- ts_consume_line true ts; args_loop fuel' acc (snd r)
+          else if tp_has_valid_head_unquoted_equals [41] ts then Ok (acc, ts)
+          else
+            do r <- args_element ts;
+            let e := match fst r with inl name => ESym name | inr frs => EStr frs end in
+            args_loop fuel' (acc ++ [e]) (snd r)
+        else Ok (acc, ts)
+    end.
+
+  Definition args_parse (ts : tstream) : res (list element * tstream) :=
+    do r <- args_loop (2 * length (ts_src ts) + 2) [] ts;
     let ts1 := snd r in
     if tp_is_at_eol ts1 then
       do r2 <- ts_consume_line false ts1; Ok (fst r, snd r2)
